@@ -24,7 +24,7 @@ func init() {
 			"a class is (entry, n class, NbTasks, (c, nbSplits, splitFirstChunk) predicted by the cost formula, scalar form, small share) ; non-trivial = n >= 2 with a non-zero scalar",
 		HangIsViolation:  true,
 		Technique:        "reference-model monitor with discrete-log oracle ((sum s_i*k_i)*G by one reference multiplication) + reference recoder for the digit partitioning (hook H2) + H7 arrival-order recording/perturbation + runtime deadlock detector and watchdog",
-		MinEvals:         map[string]int64{"quick": 1200, "thorough": 12000},
+		MinEvals:         map[string]int64{"quick": 1200, "thorough": 9000},
 		MinClasses:       map[string]int64{"quick": 400, "thorough": 1000},
 		RequiredCounters: []string{"msm_compared_with_reference", "partition_scalars_compared", "internal_entry_calls", "length_mismatch_errors", "hook.msm.chunk.send", "hook.msm.split.done"},
 		Assumptions:      []string{"the (c, nbSplits) accounting replicates the library's cost formula for evidence only, never for a verdict", "NumCPU above 16 cannot be produced; NbTasks is an argument and is driven to 1024"},
@@ -448,7 +448,7 @@ func runC09(c *mon.Ctx) {
 	}
 	pool := c09newPool(c.Rand("pool"), maxN)
 	tasksList := []int{0, 1, 2, 3, 5, 8, 15, 16, 17, 32, 63, 64, 65, 128, 1024}
-	reps := c.Pick(2, 6)
+	reps := c.Pick(2, 10)
 	k := 0
 	for rep := 0; rep < reps; rep++ {
 		for _, n := range ns {
